@@ -374,7 +374,11 @@ func (p *peer) serveListener(lis net.Listener, protoFunc ...ProtoFunc) error {
 			}
 			Infof("accept ok (network:%s, addr:%s, id:%s)", network, sess.RemoteAddr().String(), sess.ID())
 			p.sessHub.set(sess)
-			sess.changeStatus(statusOk)
+			// set may block while the session it displaced is being closed; a takeover of
+			// this session in the meantime has closed it: a closed session stays closed
+			if !sess.tryChangeStatus(statusOk, statusPreparing) {
+				return
+			}
 			sess.startReadAndHandle()
 		})
 	}
